@@ -486,6 +486,11 @@ def d7_split(ctx):
     ctx.rule('D7', 'duration split and remainder operator', floor=8)
     F = ctx.facts
     consts = {k.rsplit('::', 1)[1]: v.get('val') for k, v in F.consts.items() if k.startswith('formatter::')}
+    for unit in ('YEAR', 'MONTH'):
+        if consts.get(unit) is None:              # moved next to the type it belongs to: the one constant of that name
+            cands = [v.get('val') for k, v in F.consts.items() if k.rsplit('::', 1)[-1] == unit]
+            if len(cands) == 1:
+                consts[unit] = cands[0]
     for unit, want in (('YEAR', YEAR_SECS), ('MONTH', MONTH_SECS)):
         if consts.get(unit) is None:
             raise AnchorLost('constant formatter::%s not found' % unit)
